@@ -652,6 +652,93 @@ func checkGhost(c *Ctx) {
 			}
 		}
 		c.Oblige("C14.cut", ShortName(ex), c.Prog.FuncPos(ex), shiftOK && widthOK, "cutExpr.expr must shift right by begin*8 bits and set the width to end-begin bytes")
+		checkCutExprWalk(c, ex)
+	}
+}
+
+// checkCutExprWalk: expr() walked for concrete (begin, end, width of the
+// stored expression): on every path the result is the stored expression
+// shifted right by begin*8 bits (unshifted only for begin == 0) and brought to
+// end-begin bytes (left as it is only when that is its width already).
+func checkCutExprWalk(c *Ctx, ex *ssa.Function) {
+	recv := ex.Params[0]
+	for _, sc := range [][3]int64{{0, 4, 4}, {0, 2, 4}, {1, 3, 4}, {2, 4, 4}, {2, 4, 2}, {1, 2, 1}, {0, 4, 2}, {3, 5, 2}, {0, 1, 1}, {4, 8, 8}} {
+		begin, end, exW := sc[0], sc[1], sc[2]
+		var rsh *ssa.Call
+		rshAmt, rshOK := int64(-1), false
+		var vl *Valuation
+		isStored := func(v ssa.Value) bool { // the stored expression c.ex
+			if p, n, ok := fieldOfParam(vl.Root(v)); ok && p == recv && n == "ex" {
+				return true
+			}
+			return false
+		}
+		vl = &Valuation{
+			Typed: true,
+			Enter: SamePackage(ex),
+			Int: func(v ssa.Value) (int64, bool) {
+				if p, n, ok := fieldOfParam(v); ok && p.Parent() != nil && len(p.Parent().Params) > 0 && p == p.Parent().Params[0] {
+					// a field of the cut (of this method's or of an entered helper's receiver)
+					switch n {
+					case "begin":
+						return begin, true
+					case "end":
+						return end, true
+					}
+				}
+				if call, ok := v.(*ssa.Call); ok && call.Call.IsInvoke() && call.Call.Method.Name() == "Width" && isStored(call.Call.Value) {
+					return exW, true
+				}
+				return 0, false
+			},
+		}
+		vl.Visit = func(in ssa.Instruction) {
+			call, ok := in.(*ssa.Call)
+			if !ok || !FuncNameIs(call.Call.StaticCallee(), "pkg/expr.NewBinary") {
+				return
+			}
+			ep := c.Prog.SSAPkg[ExprPkg]
+			if k, isC := ConstInt(call.Call.Args[0]); !isC || ep == nil || ep.Const("Rsh") == nil || k != ep.Const("Rsh").Value.Int64() {
+				return
+			}
+			if !isStored(call.Call.Args[1]) {
+				return
+			}
+			rsh = call
+			if bd, ok := Match(vl.Root(call.Call.Args[2]), CallTo("pkg/expr.ConstFromUint", Capture("amt", Any()))); ok {
+				rshAmt, rshOK = vl.EvalInt(bd.M["amt"], nil)
+			}
+		}
+		res := vl.Walk(ex.Blocks[0], nil)
+		key := fmt.Sprintf("%s/begin=%d,end=%d,stored-width=%d", ShortName(ex), begin, end, exW)
+		why := ""
+		_, isRet := res.End.(*ssa.Return)
+		switch {
+		case !res.OK || !isRet:
+			why = "cannot be followed: " + res.Why
+		default:
+			r := vl.Root(res.RetVal[0])
+			inner := r
+			width := int64(-1)
+			if call, ok := r.(*ssa.Call); ok && FuncNameIs(call.Call.StaticCallee(), fnSetWidth) {
+				inner = vl.Root(call.Call.Args[0])
+				width, _ = vl.EvalInt(call.Call.Args[1], nil)
+			}
+			shifted := rsh != nil && inner == ssa.Value(rsh)
+			switch {
+			case begin > 0 && (!shifted || !rshOK || rshAmt != begin*8):
+				why = fmt.Sprintf("the bytes from offset %d are asked for but the result is not the stored expression shifted right by %d bits", begin, begin*8)
+			case begin == 0 && !shifted && !isStored(inner):
+				why = "the result is not derived from the stored expression"
+			case begin == 0 && shifted:
+				why = "the expression is shifted although the cut starts at its first byte"
+			case width == -1 && !(begin == 0 && end-begin == exW):
+				why = fmt.Sprintf("the result is not brought to %d bytes", end-begin)
+			case width != -1 && width != end-begin:
+				why = fmt.Sprintf("the result is brought to %d bytes instead of %d", width, end-begin)
+			}
+		}
+		c.Oblige("C14.cut", key, c.Prog.FuncPos(ex), why == "", why)
 	}
 }
 
